@@ -7,8 +7,10 @@ import tempfile
 from .. import coqenc as q
 
 ID = 'C16'
-RULE = ('exhaustive small scope over (length, chunk size, overlap<chunk size), (length, n_excerpts, '
-        'excerpt_size), multi-file size lists x chunk lengths (direct helper and real FlatEphysReader / '
+RULE = ('exhaustive small scope over (length, chunk size, overlap<chunk size) -- the yielded tuples and, separately, '
+        'the blocks data_chunk returns for them with and without overlap on 1-D and 2-D data --, (length, n_excerpts, '
+        'excerpt_size), data_chunk on all 2-tuples of bounds in -9..9, random 4-tuples, wrong lengths and non-tuples, '
+        'multi-file size lists x chunk lengths (direct helper and real FlatEphysReader / '
         'ArrayEphysReader instances), real mtscomp .cbin readers over chunk durations x batch sizes x cache '
         'on/off; then seeded random larger cases. Non-trivial = more than one chunk/interval/excerpt is '
         'produced; distinct = distinct abstract input.')
@@ -21,6 +23,9 @@ CLAUSES = {
     24: 'C01_bounds/C16: n_samples = sum of file sizes',
     25: 'C16_excerpts (in-bounds, disjoint, increasing, <= k, each <= size)',
     26: 'C16_get_excerpts',
+    27: 'C16_data_chunk (blocks returned by data_chunk on the yielded tuples: kept blocks concatenate to the data / '
+        'each a contiguous sub-block of its chunk block / chunk block <= chunk_size)',
+    28: 'C16_data_chunk_tuple / C16_data_chunk_pair (data_chunk on non-negative bounds = the chunk rows / kept rows)',
 }
 TRUSTED = ['mtscomp (compression, its chunk_bounds, thread pool and cache: runtime, not modelled)',
            'np.memmap / file sizes for FlatEphysReader']
@@ -34,6 +39,16 @@ def _cb_cases(nmax, csmax):
         for cs in range(1, csmax + 1):
             for ov in range(0, cs):
                 yield {'kind': 'chunk_bounds', 'inp': {'n': n, 'cs': cs, 'ov': ov}}
+
+
+def _rand_dc(rng):
+    """data_chunk on a random tuple: mostly 4 elements (both routes), bounds around and beyond the data."""
+    n = rng.choice((0, 1, 5, 8, 12))
+    ln = rng.choice((4, 4, 4, 4, 4, 4, 2, 0, 1, 3, 5))
+    t = [rng.randint(-n - 3, n + 4) if rng.random() < 0.4 else rng.randint(0, n + 2) for _ in range(ln)]
+    wo = rng.random() < 0.5
+    return {'kind': 'data_chunk', 'inp': {'n': n, 't': t, 'tuple': rng.random() < 0.95, 'wo': wo,
+                                          'ndim': rng.choice((1, 2)), 'dflt': (not wo) and rng.random() < 0.5}}
 
 
 def _size_lists(kmax, smax, lo=1):
@@ -53,7 +68,23 @@ def generate(tier, rng):
     cases.append({'kind': 'reader', 'inp': {'sizes': [3, 1, 2], 'cs': 2, 'backend': 'flat'}})
     cases.append({'kind': 'reader', 'inp': {'sizes': [7], 'cs': 3, 'backend': 'array'}})
     cases.append({'kind': 'reader', 'inp': {'sizes': [7], 'cs': 3, 'backend': 'npy'}})
+    # data_chunk: the 4-element route (with and without overlap), its exits, and the chunking seen through it
+    for n, t, wo in [(7, [3, 7, 4, 7], True), (7, [3, 7, 4, 7], False), (7, [0, 4, 0, 4], False), (2, [1, 2, 3, 2], False),
+                     (5, [0, 9, 2, 8], True), (5, [-3, -1, 1, 2], True), (5, [-3, -1, -9, 9], False), (5, [2, 4], True)]:
+        cases.append({'kind': 'data_chunk', 'inp': {'n': n, 't': t, 'tuple': True, 'wo': wo, 'ndim': 2, 'dflt': False}})
+    for t in ([], [1], [0, 1, 2], [0, 1, 2, 3, 4], [0, 1, 2, 3, 4, 5]):
+        for wo in (False, True):
+            cases.append({'kind': 'data_chunk', 'inp': {'n': 4, 't': t, 'tuple': True, 'wo': wo, 'ndim': 1, 'dflt': False}})
+    for t in ([0, 2], [0, 3, 1, 2], [0, 1, 2]):
+        cases.append({'kind': 'data_chunk', 'inp': {'n': 4, 't': t, 'tuple': False, 'wo': False, 'ndim': 1, 'dflt': True}})
+    for n, cs, ov in [(7, 4, 1), (11, 4, 3), (2, 4, 3), (30, 10, 3), (0, 3, 1), (9, 10, 0)]:
+        cases.append({'kind': 'chunked_data', 'inp': {'n': n, 'cs': cs, 'ov': ov, 'ndim': 2}})
     if tier == 'search':
+        for _ in range(600):
+            cs = rng.randint(1, 30)
+            cases.append({'kind': 'chunked_data', 'inp': {'n': rng.randint(0, 150), 'cs': cs, 'ov': rng.randint(0, cs - 1),
+                                                           'ndim': rng.choice((1, 2))}})
+            cases.append(_rand_dc(rng))
         for _ in range(3000):
             cs = rng.randint(1, 40)
             cases.append({'kind': 'chunk_bounds', 'inp': {'n': rng.randint(0, 300), 'cs': cs, 'ov': rng.randint(0, cs - 1)}})
@@ -65,6 +96,19 @@ def generate(tier, rng):
     quick = tier == 'quick'
     nmax, csmax = (24, 10) if quick else (60, 24)
     cases += list(_cb_cases(nmax, csmax))
+    # the same chunkings seen through data_chunk (blocks of rows), 1-D and 2-D data alternating
+    for c in _cb_cases(*((14, 7) if quick else (30, 12))):
+        i = c['inp']
+        cases.append({'kind': 'chunked_data', 'inp': {'n': i['n'], 'cs': i['cs'], 'ov': i['ov'],
+                                                       'ndim': 1 + (i['n'] + i['cs'] + i['ov']) % 2}})
+    # data_chunk directly: every 2-tuple of bounds in -9..9 (negative = from the end, beyond the data = clipped)
+    for n in ((0, 4, 7) if quick else (0, 1, 4, 7, 9)):
+        for a in range(-9, 10):
+            for b in range(-9, 10):
+                cases.append({'kind': 'data_chunk', 'inp': {'n': n, 't': [a, b], 'tuple': True, 'wo': (a + b) % 2 == 0,
+                                                             'ndim': 1 + (a % 2), 'dflt': b % 3 == 0}})
+    for _ in range(400 if quick else 4000):
+        cases.append(_rand_dc(rng))
     # excerpts
     en, ek, es = (24, 6, 8) if quick else (48, 9, 12)
     for n in range(0, en + 1):
@@ -106,6 +150,10 @@ def generate(tier, rng):
                     cases.append({'kind': 'mtscomp', 'inp': {'n': n, 'd': d, 'threads': th, 'cache': cache}})
     # random larger
     nrand = 300 if quick else 3000
+    for _ in range(nrand // 5):
+        cs = rng.randint(1, 40)
+        cases.append({'kind': 'chunked_data', 'inp': {'n': rng.randint(0, 300), 'cs': cs, 'ov': rng.randint(0, cs - 1),
+                                                       'ndim': rng.choice((1, 2))}})
     for _ in range(nrand):
         cs = rng.randint(1, 60)
         cases.append({'kind': 'chunk_bounds', 'inp': {'n': rng.randint(0, 2000), 'cs': cs, 'ov': rng.randint(0, cs - 1)}})
@@ -122,6 +170,23 @@ def _tmp():
     return tempfile.mkdtemp(prefix='c16_', dir=base)
 
 
+def _rows(np, n, ndim):
+    """data whose row r is recognisable: r (1-D) or [3r, 3r+1, 3r+2] (2-D, exercises data[i:j, ...])."""
+    return np.arange(n) if ndim == 1 else np.arange(3 * n).reshape(n, 3)
+
+
+def _ids(np, out, ndim):
+    out = np.asarray(out)
+    if ndim == 1:
+        if out.ndim != 1:
+            raise RuntimeError('data_chunk changed the number of dimensions')
+        return [int(x) for x in out]
+    if out.ndim != 2 or out.shape[1] != 3 or not (out[:, 0] % 3 == 0).all() or \
+            not (out[:, 1] == out[:, 0] + 1).all() or not (out[:, 2] == out[:, 0] + 2).all():
+        raise RuntimeError('data_chunk did not return whole rows')
+    return [int(x) // 3 for x in out[:, 0]]
+
+
 def run_case(case):
     import numpy as np
     k, i = case['kind'], case['inp']
@@ -133,6 +198,30 @@ def run_case(case):
             if len(out) > 5 * (i['n'] + 5):
                 raise RuntimeError('chunk_bounds yields without end')
         return ('chunks', out)
+    if k == 'data_chunk':
+        from phylib.io.array import data_chunk
+        data = _rows(np, i['n'], i['ndim'])
+        t = tuple(i['t']) if i['tuple'] else list(i['t'])
+        try:
+            out = data_chunk(data, t) if (i['dflt'] and not i['wo']) else data_chunk(data, t, with_overlap=i['wo'])
+        except AssertionError:
+            return ('dc', 'assert')
+        except ValueError as e:
+            if str(e).startswith("'chunk' should have 2 or 4 elements, not %d" % len(t)):
+                return ('dc', 'value')
+            raise
+        return ('dc', 'ok', _ids(np, out, i['ndim']))
+    if k == 'chunked_data':
+        from phylib.io.array import chunk_bounds, data_chunk
+        data = _rows(np, i['n'], i['ndim'])
+        parts = []
+        for t in chunk_bounds(i['n'], i['cs'], overlap=i['ov']):
+            w = data_chunk(data, t, with_overlap=True)
+            kept = data_chunk(data, t) if len(parts) % 2 else data_chunk(data, t, with_overlap=False)
+            parts.append([_ids(np, w, i['ndim']), _ids(np, kept, i['ndim'])])
+            if len(parts) > 5 * (i['n'] + 5):
+                raise RuntimeError('chunk_bounds yields without end')
+        return ('parts', parts)
     if k == 'reader_bounds':
         from phylib.io.traces import _get_chunk_bounds
         return ('bounds', [int(x) for x in _get_chunk_bounds(list(i['sizes']), i['cs'])])
@@ -230,6 +319,17 @@ def encode(case, obs):
     elif k == 'get_excerpts':
         cin = q.app('InGetExcerpts', q.z(i['n']), q.z(i['k']), q.z(i['size']))
         cobs = 'ObsCrash' if crash else q.app('ObsData', q.zl(obs[1]))
+    elif k == 'data_chunk':
+        cin = q.app('InDataChunk', q.z(i['n']), q.b(i['tuple']), q.zl(i['t']), q.b(i['wo']))
+        if crash:
+            cobs = 'ObsCrash'
+        elif obs[1] == 'ok':
+            cobs = q.app('ObsDc', q.app('DcOk', q.zl(obs[2])))
+        else:
+            cobs = q.app('ObsDc', 'DcValueError' if obs[1] == 'value' else 'DcAssertError')
+    elif k == 'chunked_data':
+        cin = q.app('InChunkedData', q.z(i['n']), q.z(i['cs']), q.z(i['ov']))
+        cobs = 'ObsCrash' if crash else q.app('ObsParts', q.lst(obs[1], lambda p: '(mkpart %s %s)' % (q.zl(p[0]), q.zl(p[1]))))
     else:
         raise ValueError(k)
     return cin, cobs
@@ -243,6 +343,8 @@ def nontrivial(case, obs):
         return len(obs[2]) > 1
     if k == 'mtscomp':
         return len(obs[4]) > 1
+    if k == 'data_chunk':
+        return obs[1] == 'ok' and len(obs[2]) > 0 and len(case['inp']['t']) == 4
     return len(obs[1]) > 1
 
 
@@ -268,6 +370,16 @@ def dist(case, obs):
         out.append('excerpts.count=%s' % _bucket(len(obs[1])))
     elif k == 'get_excerpts':
         out.append('get_excerpts.whole=%s' % (i['n'] < i['k'] * i['size']))
+    elif k == 'data_chunk':
+        out.append('dc.len=%d' % len(i['t']))
+        out.append('dc.result=%s' % obs[1])
+        out.append('dc.with_overlap=%s' % i['wo'])
+        out.append('dc.tuple=%s' % i['tuple'])
+        out.append('dc.negative=%s' % any(x < 0 for x in i['t']))
+    elif k == 'chunked_data':
+        out.append('cd.chunks=%s' % _bucket(len(obs[1])))
+        out.append('cd.ndim=%d' % i['ndim'])
+        out.append('cd.ov_odd=%s' % (i['ov'] % 2 == 1))
     return out
 
 
@@ -285,9 +397,9 @@ def shrink(case):
                 if 0 <= nv < v:
                     j = dict(i)
                     j[key] = nv
-                    if k == 'chunk_bounds' and not (j['ov'] < j['cs'] and j['cs'] >= 1):
+                    if k in ('chunk_bounds', 'chunked_data') and not (j['ov'] < j['cs'] and j['cs'] >= 1):
                         continue
-                    if key == 'cs' and nv < 1 or key == 'd' and nv < 1 or key == 'threads' and nv < 1:
+                    if key == 'cs' and nv < 1 or key == 'd' and nv < 1 or key == 'threads' and nv < 1 or key == 'ndim' and nv < 1:
                         continue
                     if k == 'excerpts' and j['k'] < 2 or k == 'get_excerpts' and j['size'] < 1:
                         continue
@@ -320,4 +432,13 @@ def repro(case):
         return pre + "from phylib.io.array import excerpts\nprint(list(excerpts(%(n)d, n_excerpts=%(k)d, excerpt_size=%(size)d)))\n" % i
     if k == 'get_excerpts':
         return pre + "import numpy as np\nfrom phylib.io.array import get_excerpts\nprint(get_excerpts(np.arange(%(n)d), n_excerpts=%(k)d, excerpt_size=%(size)d))\n" % i
+    if k == 'data_chunk':
+        return pre + ("import numpy as np\nfrom phylib.io.array import data_chunk\n"
+                      "print(data_chunk(np.arange(%d), %s, with_overlap=%r))\n"
+                      % (i['n'], 'tuple(%r)' % (i['t'],) if i['tuple'] else repr(i['t']), i['wo']))
+    if k == 'chunked_data':
+        return pre + ("import numpy as np\nfrom phylib.io.array import chunk_bounds, data_chunk\n"
+                      "data = np.arange(%(n)d)\nfor t in chunk_bounds(%(n)d, %(cs)d, overlap=%(ov)d):\n"
+                      "    print(t, data_chunk(data, t, with_overlap=True), data_chunk(data, t))"
+                      "  # kept blocks must concatenate to data\n" % i)
     return pre + "from vt.props import c16\nprint(c16.run_case(%r))\n" % (case,)
